@@ -641,6 +641,59 @@ Eval vm_compute in (length cases, map fst (filter (fun p => snd p =? 2) (combine
             R.disagree("Model np_argmax / np_unravel_index differ from NumPy", {"matrix": M, "numpy": [i, t, mx]})
     R.extra_cov["correspondence_cases"] = len(cases) + len(am)
 
+    # ---------------- correspondence of the regenerated width ladder and on-pulse extent (Gen/MatchedFilter.v) ---------------------
+    # spacing factors sp / sq exactly representable in binary, so that the float product of the implementation is the exact rational
+    lad = []
+    for size_max in list(range(0, 41)) + [50, 64, 100, 256, 1000]:
+        for sp, sq in ((3, 2), (1, 1), (5, 4), (2, 1), (7, 4), (9, 8), (3, 1), (1, 2)):
+            try:
+                got = [int(v) for v in MatchedFilter.get_box_width_spacing(size_max, sp / sq)]
+            except Exception:  # noqa: BLE001
+                got = [-1]
+            lad.append((size_max, sp, sq, got))
+    onp = []
+    for _ in range(140):
+        nb = rng.randrange(1, 80)
+        pk = rng.randrange(0, nb)
+        if rng.random() < 0.5:
+            w = rng.randrange(1, 40)
+            t, isstart, rw = Template.gen_boxcar(w), 1, w
+        else:
+            wf = rng.choice([0.4, 0.5, 1.0, 1.5, 2.5, 3.5, 2.49, 7.3, 12.0, 25.5])
+            t = Template.gen_gaussian(wf) if rng.random() < 0.5 else Template.gen_lorentzian(wf)
+            isstart, rw, w = 0, int(round(wf)), int(round(wf))
+        try:
+            a_, b_ = t.get_on_pulse(pk, nb)
+            got = (int(a_), int(b_)) if (a_ == int(a_) and b_ == int(b_)) else (-7, -7)
+        except Exception:  # noqa: BLE001
+            got = (-9, -9)
+        onp.append((isstart, w, rw, pk, nb, got[0], got[1]))
+    blines = ["From Coq Require Import ZArith List Bool.",
+              "Require Import SPP.Base.Rt SPP.Model.C12_np SPP.Model.C13_np SPP.Gen.Kernels SPP.Gen.MatchedFilter.",
+              "Import ListNotations.", "Open Scope Z_scope.",
+              "Definition lad : list (Z * Z * Z * list Z) := [",
+              ";\n".join(f"({a_}, {b_}, {c_}, {vlib.zlist(g_)})" for a_, b_, c_, g_ in lad), "].",
+              "Eval vm_compute in (map fst (filter (fun p => let '(sm, sp, sq, g) := snd p in negb (list_eqb (box_width_spacing_run sm sp sq) g)) "
+              "(combine (seq 0 (length lad)) lad))).",
+              "Definition onp : list (Z * Z * Z * Z * Z * Z * Z) := [",
+              ";\n".join("(" + ", ".join(str(v) if v >= 0 else f"({v})" for v in r_) + ")" for r_ in onp), "].",
+              "Eval vm_compute in (map fst (filter (fun p => let '(st, w, rw, pk, nb, a, b) := snd p in "
+              "negb (let '(s, e) := on_pulse_run (st =? 1) w rw pk nb in (s =? a) && (e =? b))) (combine (seq 0 (length onp)) onp)))."]
+    rc, out = vlib.coq_run("c13_bank", "\n".join(blines), timeout=300)
+    vals = vlib.parse_eval(out)
+    if rc != 0 or len(vals) < 2:
+        R.red.append("correspondence: Corr/c13_bank did not evaluate: " + out[-500:])
+    else:
+        for v in re.findall(r"(\d+)%nat", vals[0])[:4]:
+            sm, sp, sq, g_ = lad[int(v)]
+            R.disagree("generated get_box_width_spacing (box_width_spacing_run) and the implementation differ",
+                       {"size_max": sm, "spacing_factor": f"{sp}/{sq}", "implementation": g_})
+        for v in re.findall(r"(\d+)%nat", vals[1])[:4]:
+            st, w, rw, pk, nb, a_, b_ = onp[int(v)]
+            R.disagree("generated get_on_pulse (on_pulse_run) and the implementation differ",
+                       {"ref": "start" if st else "peak", "width": w, "round_width": rw, "peak_bin": pk, "nbins": nb, "implementation": [a_, b_]})
+    R.extra_cov["correspondence_cases"] = R.extra_cov.get("correspondence_cases", 0) + len(lad) + len(onp)
+
     # ---------------- which of the four source forms of Props/C13.v (C13_source_form) the regenerated kernel has -------------------
     # C13_response_formula_exact_length (every data length, odd ones included) has the hypothesis src_is nopad ilen_given; the other
     # three forms only have the even-length / padded statements.  Each form holds by reflexivity or not at all.
